@@ -14,7 +14,7 @@ func TestProp(t *testing.T) {
 		Rule: "Names are generated from a path grammar (plain segments, '.', '..', empty segments, '/' and '\\' separators, " +
 			"leading/trailing separators, aliases of a really existing upload id, over-long / NUL / doubly-encoded specials) and " +
 			"encoded character by character (raw, %XX, %xx, %25XX). Each case sends a short sequence of raw HTTP/1.1 requests over " +
-			"a TCP socket (no client-side path cleaning) to a real build-index tag server or origin blob server whose stores live in " +
+			"a TCP socket (no client-side path cleaning) to a real build-index tag server, origin blob server or agent server whose stores live in " +
 			"<box>/l1/l2/svc/{upload,cache}, or calls the store APIs directly with the decoded names. Sentinel files named like the " +
 			"stores' own files (data, _persist, _torrentmeta, _last_access_time) sit in every ancestor and sibling directory. After every " +
 			"request the whole box outside the two store directories is compared with its state before (created / modified / deleted " +
